@@ -12,20 +12,74 @@ use std::sync::Arc;
 /// A dual number data type supporting first order derivatives.
 #[pyclass(module = "rateslib.rs")]
 #[derive(Clone, Default, Debug, Deserialize, Serialize)]
+#[serde(try_from = "DualDataModel")]
 pub struct Dual {
     pub(crate) real: f64,
     pub(crate) vars: Arc<IndexSet<String>>,
     pub(crate) dual: Array1<f64>,
 }
 
+/// Deserialization data model for `Dual`: the same fields, validated on conversion.
+#[derive(Deserialize)]
+struct DualDataModel {
+    real: f64,
+    vars: Arc<IndexSet<String>>,
+    dual: Array1<f64>,
+}
+
+impl std::convert::TryFrom<DualDataModel> for Dual {
+    type Error = String;
+
+    fn try_from(model: DualDataModel) -> Result<Self, Self::Error> {
+        if model.vars.len() != model.dual.len() {
+            return Err("`vars` and `dual` must have the same length.".to_string());
+        }
+        Ok(Dual {
+            real: model.real,
+            vars: model.vars,
+            dual: model.dual,
+        })
+    }
+}
+
 /// A dual number data type supporting second order derivatives.
 #[pyclass(module = "rateslib.rs")]
 #[derive(Clone, Default, Debug, Serialize, Deserialize)]
+#[serde(try_from = "Dual2DataModel")]
 pub struct Dual2 {
     pub(crate) real: f64,
     pub(crate) vars: Arc<IndexSet<String>>,
     pub(crate) dual: Array1<f64>,
     pub(crate) dual2: Array2<f64>,
+}
+
+/// Deserialization data model for `Dual2`: the same fields, validated on conversion.
+#[derive(Deserialize)]
+struct Dual2DataModel {
+    real: f64,
+    vars: Arc<IndexSet<String>>,
+    dual: Array1<f64>,
+    dual2: Array2<f64>,
+}
+
+impl std::convert::TryFrom<Dual2DataModel> for Dual2 {
+    type Error = String;
+
+    fn try_from(model: Dual2DataModel) -> Result<Self, Self::Error> {
+        let n = model.vars.len();
+        if n != model.dual.len() {
+            return Err("`vars` and `dual` must have the same length.".to_string());
+        }
+        if model.dual2.shape() != [n, n] {
+            return Err("`vars` and `dual2` must have compatible lengths.".to_string());
+        }
+        Ok(Dual2 {
+            real: model.real,
+            vars: model.vars,
+            dual: model.dual,
+            dual2: model.dual2,
+        })
+    }
 }
 
 /// The state of the `vars` measured between two dual number type structs; a LHS relative to a RHS.
